@@ -21,6 +21,11 @@ import (
 	"testing"
 	"time"
 
+	"github.com/snapcore/snapd/asserts"
+	"github.com/snapcore/snapd/asserts/assertstest"
+	"github.com/snapcore/snapd/overlord/snapstate"
+	"github.com/snapcore/snapd/overlord/snapstate/snapstatetest"
+	"github.com/snapcore/snapd/snap"
 	"github.com/snapcore/snapd/snap/channel"
 	eng "github.com/snapcore/snapd/verifengine"
 )
@@ -138,9 +143,14 @@ func validPinned(t string) bool {
 }
 
 type vCase struct {
-	Kind string `json:"kind"` // single | resolve | pinned
-	A    string `json:"a"`    // single: the channel; resolve: current; pinned: pinned track
+	Kind string `json:"kind"` // single | resolve | pinned | wrapper
+	A    string `json:"a"`    // single: the channel; resolve/wrapper: current; pinned: pinned track
 	B    string `json:"b,omitempty"`
+	// wrapper (snapstate.resolveChannel / RevisionOptions.resolveChannel) only:
+	Via   string `json:"via,omitempty"`   // func | revopts
+	Snap  string `json:"snap,omitempty"`  // kernel | gadget | other
+	Model string `json:"model,omitempty"` // pinned | unpinned
+	Rev   bool   `json:"rev,omitempty"`   // revopts: a revision is set
 }
 
 type verdict struct {
@@ -294,9 +304,14 @@ func checkSingle(s string) verdict {
 
 // ---------------------------------------------------------------- Resolve
 func checkResolve(cur, nw string) verdict {
-	cs := vCase{Kind: "resolve", A: cur, B: nw}
+	return checkResolveF("resolve", vCase{Kind: "resolve", A: cur, B: nw}, channel.Resolve, cur, nw)
+}
+
+// checkResolveF applies the laws of an unpinned resolution to f (channel.Resolve itself, or a snapstate wrapper).
+func checkResolveF(kind string, cs vCase, f func(cur, nw string) (string, error), cur, nw string) verdict {
+	bad := func(_ string, law string, c vCase, format string, a ...interface{}) verdict { return bad(kind, law, c, format, a...) }
 	return guard(cs, func() verdict {
-		res, err := channel.Resolve(cur, nw)
+		res, err := f(cur, nw)
 		if nw == "" {
 			if err != nil || res != cur {
 				return bad("resolve", "empty-new", cs, "Resolve(%q,\"\")=%q,%v; want the current channel", cur, res, err)
@@ -379,9 +394,16 @@ func checkResolve(cur, nw string) verdict {
 
 // ---------------------------------------------------------------- ResolvePinned
 func checkPinned(track, nw string) verdict {
-	cs := vCase{Kind: "pinned", A: track, B: nw}
+	return checkPinnedF("pinned", vCase{Kind: "pinned", A: track, B: nw}, channel.ResolvePinned,
+		func(err error) bool { return err == channel.ErrPinnedTrackSwitch }, track, nw)
+}
+
+// checkPinnedF applies the laws of a pinned resolution to f (channel.ResolvePinned itself, or a snapstate
+// wrapper whose device model pins `track`); isSwitch recognises the "cannot switch track" refusal.
+func checkPinnedF(kind string, cs vCase, f func(track, nw string) (string, error), isSwitch func(error) bool, track, nw string) verdict {
+	bad := func(_ string, law string, c vCase, format string, a ...interface{}) verdict { return bad(kind, law, c, format, a...) }
 	return guard(cs, func() verdict {
-		res, err := channel.ResolvePinned(track, nw)
+		res, err := f(track, nw)
 		if track == "" {
 			if err != nil || res != nw {
 				return bad("pinned", "no-pin", cs, "ResolvePinned(\"\",%q)=%q,%v; want the request unchanged", nw, res, err)
@@ -396,7 +418,7 @@ func checkPinned(track, nw string) verdict {
 			return bad("pinned", "error-with-result", cs, "ResolvePinned(%q,%q) returned %q together with error %v", track, nw, res, err)
 		}
 		if !validPinned(track) {
-			if err == nil || err == channel.ErrPinnedTrackSwitch {
+			if err == nil || isSwitch(err) {
 				return bad("pinned", "invalid-pin", cs, "ResolvePinned(%q,%q)=%q,%v; want an invalid-pinned-track error", track, nw, res, err)
 			}
 			return verdict{outcome: "invalid-pin"}
@@ -420,7 +442,7 @@ func checkPinned(track, nw string) verdict {
 		}
 		if riskNamedTrack(nw) {
 			// explicit track called like a risk: refused, or read as risk/branch inside the pinned track
-			if !(err == channel.ErrPinnedTrackSwitch || (err == nil && res == track+"/"+nw)) {
+			if !(isSwitch(err) || (err == nil && res == track+"/"+nw)) {
 				return bad("pinned", "risk-named-track-request", cs, "ResolvePinned(%q,%q)=%q,%v; want ErrPinnedTrackSwitch or the pinned track prefixed", track, nw, res, err)
 			}
 			return verdict{outcome: "risk-named-track-request", nontriv: true}
@@ -436,7 +458,7 @@ func checkPinned(track, nw string) verdict {
 				return bad("pinned", "same-track", cs, "ResolvePinned(%q,%q)=%q,%v; want the request itself", track, nw, res, err)
 			}
 		default:
-			if err != channel.ErrPinnedTrackSwitch {
+			if !isSwitch(err) {
 				return bad("pinned", "other-track-refused", cs, "ResolvePinned(%q,%q)=%q,%v; want ErrPinnedTrackSwitch", track, nw, res, err)
 			}
 			return verdict{outcome: "refused", nontriv: true}
@@ -453,6 +475,110 @@ func checkPinned(track, nw string) verdict {
 		}
 		return verdict{outcome: "same-track", nontriv: true}
 	})
+}
+
+// ---------------------------------------------------------------- snapstate wrappers
+//
+// resolveChannel(snap, old, new, deviceCtx) and (*RevisionOptions).resolveChannel are the only way an
+// install/refresh/switch request reaches channel.Resolve/ResolvePinned. They are driven with a device model
+// that pins the kernel to track "1.0" and the gadget to track "1" (two tracks of the alphabet, one a string
+// prefix of the other) and with a model that pins nothing.
+
+const pinnedKernelTrack, pinnedGadgetTrack = "1.0", "1"
+
+func fakeModel(kernel, gadget string) *asserts.Model {
+	return assertstest.FakeAssertion(map[string]interface{}{
+		"type":         "model",
+		"authority-id": "brand",
+		"series":       "16",
+		"brand-id":     "brand",
+		"model":        "baz-3000",
+		"architecture": "armhf",
+		"gadget":       gadget,
+		"kernel":       kernel,
+		"timestamp":    "2018-01-01T08:00:00+00:00",
+	}).(*asserts.Model)
+}
+
+var deviceCtxs = map[string]snapstate.DeviceContext{
+	"unpinned": &snapstatetest.TrivialDeviceContext{DeviceModel: fakeModel("kernel", "brand-gadget")},
+	"pinned":   &snapstatetest.TrivialDeviceContext{DeviceModel: fakeModel("kernel="+pinnedKernelTrack, "brand-gadget="+pinnedGadgetTrack)},
+}
+
+var snapNames = map[string]string{"kernel": "kernel", "gadget": "brand-gadget", "other": "some-snap"}
+
+func checkWrapper(cs vCase) verdict {
+	kind := fmt.Sprintf("wrapper-%s-%s-%s", cs.Via, cs.Snap, cs.Model)
+	if cs.Rev {
+		kind += "-rev"
+	}
+	ctx, snapName := deviceCtxs[cs.Model], snapNames[cs.Snap]
+	if ctx == nil || snapName == "" || (cs.Via != "func" && cs.Via != "revopts") {
+		eng.HarnessError("bad wrapper case %+v", cs)
+	}
+	var mutated string
+	call := func(old, nw string) (string, error) {
+		if cs.Via == "func" {
+			return snapstate.VerifResolveChannel(snapName, old, nw, ctx)
+		}
+		ro := &snapstate.RevisionOptions{Channel: nw}
+		if cs.Rev {
+			ro.Revision = snap.R(11)
+		}
+		if err := snapstate.VerifRevOptsResolveChannel(ro, snapName, old, ctx); err != nil {
+			if ro.Channel != nw {
+				mutated = ro.Channel
+			}
+			return "", err
+		}
+		return ro.Channel, nil
+	}
+	old, nw := cs.A, cs.B
+	track := ""
+	if cs.Model == "pinned" {
+		switch cs.Snap {
+		case "kernel":
+			track = pinnedKernelTrack
+		case "gadget":
+			track = pinnedGadgetTrack
+		}
+	}
+	if nw == "" {
+		// no channel requested: nothing to resolve. By revision the channel is left alone, otherwise the
+		// current/fallback channel is kept.
+		return guard(cs, func() verdict {
+			res, err := call(old, nw)
+			want := old
+			if cs.Via == "revopts" && cs.Rev {
+				want = ""
+			}
+			if err != nil || res != want {
+				return bad(kind, "no-request", cs, "old %q, no requested channel: got %q,%v; want %q", old, res, err, want)
+			}
+			return verdict{outcome: "no-request"}
+		})
+	}
+	var v verdict
+	if track != "" {
+		// a channel was requested for a snap whose track is pinned by the model — with or without a revision
+		csKey := cs
+		csKey.A = track // the current channel plays no role under a pin: keep it out of the violation key
+		v = checkPinnedF(kind, csKey, func(_, n string) (string, error) { return call(old, n) },
+			func(err error) bool { return err != nil && strings.Contains(err.Error(), "cannot switch from") }, track, nw)
+	} else {
+		v = checkResolveF(kind, cs, call, old, nw)
+	}
+	if v.key == "" && mutated != "" {
+		return bad(kind, "error-mutates-options", cs, "old %q new %q: the call failed but changed RevisionOptions.Channel to %q", old, nw, mutated)
+	}
+	if v.key != "" {
+		what := "snapstate.resolveChannel"
+		if cs.Via == "revopts" {
+			what = fmt.Sprintf("(&RevisionOptions{Channel:%q, revision set:%v}).resolveChannel", nw, cs.Rev)
+		}
+		v.msg = fmt.Sprintf("%s for the %s snap, current channel %q, requested %q, model pins track %q: %s", what, cs.Snap, old, nw, track, v.msg)
+	}
+	return v
 }
 
 // collector keeps, per violation key, the smallest failing input (shortest, then lexicographic) so that the
@@ -506,6 +632,8 @@ func runCase(c vCase) verdict {
 		return checkResolve(c.A, c.B)
 	case "pinned":
 		return checkPinned(c.A, c.B)
+	case "wrapper":
+		return checkWrapper(c)
 	}
 	eng.HarnessError("unknown case kind %q", c.Kind)
 	return verdict{}
@@ -515,7 +643,7 @@ func TestC34(t *testing.T) {
 	r := eng.Start("C34", "exploration", 90*time.Second, 10*time.Minute)
 	r.Assume("reference grammar (refParseVerbatim/clean/name/full, ~60 lines) is a second transcription of the documented channel syntax [<track>/]<risk>[/<branch>] | <track>; the algebraic laws do not depend on it",
 		"component alphabet {\"\",latest,1.0,1,stable,candidate,beta,edge,fix} covers: empty component, default track, two tracks where one is a string prefix of the other, all four risks (also in track and branch position), one non-risk word",
-		"snapstate.resolveChannel (unexported) is a direct dispatcher to Resolve/ResolvePinned and is not driven itself")
+		"snapstate.resolveChannel and (*RevisionOptions).resolveChannel are reached through an overlay-mounted export file (build tag verif); the device context is snapstatetest.TrivialDeviceContext over a fake model assertion pinning kernel=1.0 and gadget=1, or nothing")
 
 	if rc := r.ReplayCase(); rc != nil {
 		var c vCase
@@ -626,6 +754,77 @@ func TestC34(t *testing.T) {
 			outc[1][k] += n
 		}
 	}
+	// 3. the snapstate wrappers: resolveChannel and (*RevisionOptions).resolveChannel
+	type wcfg struct {
+		via, snap, model string
+		rev              bool
+	}
+	var cfgs []wcfg
+	for _, model := range []string{"unpinned", "pinned"} {
+		for _, sn := range []string{"kernel", "gadget", "other"} {
+			cfgs = append(cfgs, wcfg{"func", sn, model, false}, wcfg{"revopts", sn, model, false}, wcfg{"revopts", sn, model, true})
+		}
+	}
+	var wOld []string
+	if r.Quick() {
+		// current channels: everything up to 2 components plus every parseable 3-component channel
+		for _, s := range strs {
+			if strings.Count(s, "/") < 2 || implAccepts(s) {
+				wOld = append(wOld, s)
+			}
+		}
+	} else {
+		wOld = strs[:0:0]
+		wOld = append(wOld, allChannels(3)...)
+	}
+	wNew := allChannels(r.Pick(3, 4))
+	var nWrap, ntWrap, nWrapPinnedRev int64
+	wlocals := make([]map[string]int64, len(wNew))
+	eng.ParallelFor(len(wNew), func(i int) {
+		if r.TimeUp() {
+			r.Cap("time", "wrappers: some requested channels were skipped")
+			return
+		}
+		nw := wNew[i]
+		lo := map[string]int64{}
+		var n, nt, npr int64
+		for _, old := range wOld {
+			for _, c := range cfgs {
+				cs := vCase{Kind: "wrapper", A: old, B: nw, Via: c.via, Snap: c.snap, Model: c.model, Rev: c.rev}
+				v := checkWrapper(cs)
+				n++
+				if v.key != "" {
+					col.add(v.key, v.msg, cs)
+					continue
+				}
+				lo[c.model+"/"+c.snap+":"+v.outcome]++
+				if v.nontriv {
+					nt++
+					if c.rev && c.model == "pinned" && c.snap != "other" {
+						npr++
+					}
+				}
+			}
+		}
+		wlocals[i] = lo
+		atomic.AddInt64(&nWrap, n)
+		atomic.AddInt64(&ntWrap, nt)
+		atomic.AddInt64(&nWrapPinnedRev, npr)
+	})
+	wout := map[string]int64{}
+	for _, l := range wlocals {
+		for k, n := range l {
+			wout[k] += n
+		}
+	}
+	for k := range wout {
+		r.Distinct("wrapper_outcome", k)
+	}
+	r.Info("wrapper_outcomes", wout)
+	r.Add("wrapper_evaluations", nWrap)
+	r.Add("wrapper_nontrivial", ntWrap)
+	r.Add("wrapper_pinned_with_revision_and_channel", nWrapPinnedRev)
+
 	for k := range outc[0] {
 		r.Distinct("resolve_outcome", k)
 	}
@@ -642,14 +841,16 @@ func TestC34(t *testing.T) {
 	r.Add("resolve_risk_only_requests", ntRes)
 	r.Add("pinned_evaluations", nPin)
 	r.Add("pinned_valid_pin_nonempty_request", ntPin)
-	r.Add("evaluations", nSingle+nRes+nPin)
-	r.Add("distinct_nontrivial", ntSingle+ntRes+ntPin)
+	r.Add("evaluations", nSingle+nRes+nPin+nWrap)
+	r.Add("distinct_nontrivial", ntSingle+ntRes+ntPin+ntWrap)
 	r.Info("bounds", map[string]int{"alphabet": len(alphabet), "single_max_components": singleComps, "pair_max_components": pairComps,
-		"single_strings": len(singles), "pair_strings": len(strs)})
+		"single_strings": len(singles), "pair_strings": len(strs),
+		"wrapper_current_channels": len(wOld), "wrapper_requested_channels": len(wNew), "wrapper_configurations": len(cfgs)})
+	r.Sample(vCase{Kind: "wrapper", A: "1.0/stable", B: "edge", Via: "revopts", Snap: "kernel", Model: "pinned", Rev: true})
 	r.Sample(vCase{Kind: "single", A: "latest/stable"})
 	r.Sample(vCase{Kind: "single", A: singles[len(singles)/2]})
 	r.Sample(vCase{Kind: "resolve", A: "1.0/stable", B: "beta/fix"})
 	r.Sample(vCase{Kind: "pinned", A: "1", B: "1.0/stable"})
 	r.Sample(vCase{Kind: "pinned", A: strs[len(strs)/3], B: strs[len(strs)/2]})
-	r.Finish("every string of 1..K alphabet components joined by '/' (single laws, K=single_max_components); every ordered pair of such strings with K=pair_max_components as (current,new) for Resolve and as (pinned track,new) for ResolvePinned. distinct_nontrivial = strings accepted by Parse (all normalization/full-form laws apply) + Resolve pairs with parseable current and a valid risk-only or risk/branch request + ResolvePinned pairs with a valid pinned track and a non-empty request (in-track, same-track, refused or garbage)")
+	r.Finish("every string of 1..K alphabet components joined by '/' (single laws, K=single_max_components); every ordered pair of such strings with K=pair_max_components as (current,new) for Resolve and as (pinned track,new) for ResolvePinned. distinct_nontrivial = strings accepted by Parse (all normalization/full-form laws apply) + Resolve pairs with parseable current and a valid risk-only or risk/branch request + ResolvePinned pairs with a valid pinned track and a non-empty request (in-track, same-track, refused or garbage) + the same two rules counted on the snapstate wrappers, i.e. (current, requested) × {resolveChannel, RevisionOptions.resolveChannel without/with revision} × snap {kernel, gadget, other} × model {pinned, unpinned}")
 }
